@@ -15,7 +15,7 @@ import (
 
 var evC07 = ev.New("C07", "derived frame x expression tree (depth<=3, constants/columns/unary/binary/n-ary calls, qframe.Expr and raw []interface{} forms, default context or a context with "+
 	"user functions incl. names shadowing built-ins) or an ill-formed variant (unknown function/column, operand type mismatch incl. enum vs string, zero arguments, wrong list length, "+
-	"non-string operator, unsupported constant, illegal destination); destination new/existing/equal to a source; oracle: typed row-wise model predicting either Err or the whole result frame; "+
+	"non-string operator, unsupported constant, illegal destination); destination new/existing/equal to a source, user columns and destinations named like Eval's temporaries; oracle: typed row-wise model predicting either Err or the whole result frame; "+
 	"non-trivial = well-typed tree of depth>=2 or arity>=3 on a non-identity index; distinct = FNV-64 of (table, route, context, destination, expression)")
 
 var tempLikeNames = []string{"const-temp-0", "const-temp-1", "unary-temp-0", "unary-temp-1", "colcol-temp-0", "colcol-temp-1"}
